@@ -5,7 +5,7 @@ CONSTANTS
   OffsMod = 65536
   Kind = "tokparam"
   Atoms <- AtomsQuote2A
-  MaxLen = 7
+  MaxLen = 6
   Cfgs <- CfgsOf
   Starts = {0, 3}
   FlagSet = {32, 128}
